@@ -279,8 +279,25 @@ func c18Alphabet(lang int) []string {
 			add(s)
 		}
 	}
+	if c18AliasText {
+		// characters beyond ASCII whose code point ends in the byte of a delimiter character
+		// (U+0100+c, U+2000+c: "•" is U+2022, '"' is 0x22): text, never delimiters
+		seen := map[rune]bool{}
+		for _, s := range []string{d.single, d.mstart, d.mend, "\"", "'"} {
+			for _, r := range s {
+				if r < 0x80 && !seen[r] {
+					seen[r] = true
+					add(string(rune(0x100) + r))
+				}
+			}
+		}
+		add("\u2022")
+	}
 	return out
 }
+
+// c18AliasText is set by the job parameter text=aliases (process wide).
+var c18AliasText bool
 
 // c18UnicodeText is set by the job parameter text=unicode (process wide).
 var c18UnicodeText bool
@@ -288,6 +305,7 @@ var c18UnicodeText bool
 func c18Lexer(c *vrep.Ctx) {
 	maxLen := c.ParamInt("maxlen", c.Pick(5, 6))
 	c18UnicodeText = c.Param("text", "ascii") == "unicode"
+	c18AliasText = c.Param("text", "ascii") == "aliases"
 	nlang := len(refTable)
 	c.R.Rule = fmt.Sprintf("for every one of the %d Language values: ALL strings of <=%d symbols over that language's delimiter alphabet (each delimiter as a whole and split into its characters/fragments, plus 'a', newline, backslash, quotes, blank; Python adds triple quotes, SQL/Objective-C their extra styles) compared with a straightforward reference lexer (frozen delimiter table): same comments in order, delimiter-free text, 1-based start/end lines, nothing from inside string literals; watchdog for hangs; non-trivial = distinct (language, string) cases in which the reference finds at least one comment", nlang, maxLen)
 	c.Bound("max_symbols", maxLen)
